@@ -121,49 +121,96 @@ def install_module(log=None):
     return m
 
 
-def template_text(cfg, variant=0):
-    c, E, P = cfg["c"], cfg["E"], cfg["P"]
+def session(c, D, P, E, BF):
+    """A session (Filters.cfg) with one construct."""
+    return {"D": D, "P": P, "BF": BF, "items": [{"c": c, "E": E}], "items2": []}
+
+
+def item_text(it, k, variant=0):
+    """Template text of the k-th construct (names of defs are made unique by k)."""
+    c, E = it["c"], it["E"]
     sep = [", ", ",", " ,  "][variant % 3]
     fl = sep.join(E)
-    page = "" if P == ABSENT else '<%%page expression_filter="%s"/>' % sep.join(P)
+    flt = (' filter="%s"' % fl) if fl else ""
+    fn = "fn%d" % k
     if c == "expr":
         pad = ["", " ", "\n"][variant % 3] if fl else ""
         body = "${v%s}" % ((" |" + pad + fl + pad) if fl else "")
     elif c == "def":
-        body = '<%%def name="fn()" filter="%s">%s</%%def><%% fn() %%>' % (fl, BODY) if fl else '<%%def name="fn()">%s</%%def><%% fn() %%>' % BODY
+        body = '<%%def name="%s()"%s>%s</%%def><%% %s() %%>' % (fn, flt, BODY, fn)
     elif c == "cacheddef":
-        body = '<%%def name="fn()" cached="True"%s>%s</%%def><%% fn() %%>' % ((' filter="%s"' % fl) if fl else "", BODY)
+        body = '<%%def name="%s()" cached="True"%s>%s</%%def><%% %s() %%>' % (fn, flt, BODY, fn)
     elif c == "block":
-        body = '<%%block%s>%s</%%block>' % ((' filter="%s"' % fl) if fl else "", BODY)
+        body = '<%%block%s>%s</%%block>' % (flt, BODY)
     elif c == "text":
-        body = '<%%text%s>%s</%%text>' % ((' filter="%s"' % fl) if fl else "", BODY)
+        body = '<%%text%s>%s</%%text>' % (flt, BODY)
     elif c == "bufdef":
-        body = '<%%def name="fn()" buffered="True"%s>%s</%%def>${fn()}' % ((' filter="%s"' % fl) if fl else "", BODY)
+        body = '<%%def name="%s()" buffered="True"%s>%s</%%def>${%s()}' % (fn, flt, BODY, fn)
     elif c == "cachedbufdef":
-        body = '<%%def name="fn()" buffered="True" cached="True"%s>%s</%%def>${fn()}' % ((' filter="%s"' % fl) if fl else "", BODY)
+        body = '<%%def name="%s()" buffered="True" cached="True"%s>%s</%%def>${%s()}' % (fn, flt, BODY, fn)
     else:
         raise MachineryError("unknown construct %r" % c)
-    return page + "[" + body + "]"
+    return "[" + body + "]"
+
+
+def template_texts(cfg, variant=0):
+    """The one or two templates of a session.  Anonymous blocks are named after their line: one construct per line."""
+    sep = [", ", ",", " ,  "][variant % 3]
+    page = "" if cfg["P"] == ABSENT else '<%%page expression_filter="%s"/>' % sep.join(cfg["P"])
+    nl = "" if len(cfg["items"]) == 1 else "\n"
+    t1 = page + nl.join(item_text(it, k + 1, variant) for k, it in enumerate(cfg["items"]))
+    t2 = None
+    if cfg["items2"]:
+        t2 = "\n".join(item_text(it, k + 1, variant) for k, it in enumerate(cfg["items2"]))
+    return t1, t2
+
+
+def template_text(cfg, variant=0):
+    t1, t2 = template_texts(cfg, variant)
+    return t1 if t2 is None else t1 + "  ++  " + t2
+
+
+IMPORTS = ["from c02_filters import d1, d2, p1, p2, b1"]
 
 
 def render_config(cfg, variant=0, log=None):
-    """('ok', output) | ('exc', Type, msg)"""
+    """('ok', output(s), template text) | ('mutated', what, text) | ('exc', Type, msg, text).
+    The default_filters / buffer_filters list OBJECTS are created once per session and shared by everything compiled in
+    it -- by both templates directly, or through one TemplateLookup -- and their content is looked at afterwards."""
+    from mako.lookup import TemplateLookup
     from mako.template import Template
     install_module(log)
-    kw = {"imports": ["from c02_filters import d1, d2, p1, p2, b1"], "buffer_filters": list(cfg["BF"])}
-    if cfg["D"] != ABSENT:
-        kw["default_filters"] = list(cfg["D"])
+    dlist = None if cfg["D"] == ABSENT else list(cfg["D"])
+    blist = list(cfg["BF"])
+    kw = {"imports": IMPORTS, "buffer_filters": blist}
+    if dlist is not None:
+        kw["default_filters"] = dlist
+    t1, t2 = template_texts(cfg, variant)
     text = template_text(cfg, variant)
     try:
-        t = Template(text, **kw)
+        if (variant // 3) % 2 == 0 or log is not None:
+            tmpls = [Template(t, **kw) for t in (t1, t2) if t is not None]
+        else:
+            lk = TemplateLookup(**kw)
+            lk.put_string("t1", t1)
+            if t2 is not None:
+                lk.put_string("t2", t2)
+            tmpls = [lk.get_template(u) for u in (("t1", "t2") if t2 is not None else ("t1",))]
         if log is not None:
-            _interpose(t, log)
+            _interpose(tmpls[0], log)
         ctx = {"v": Val(RAW), "f1": tagger("f1", log), "f2": tagger("f2", log), "g": make_g(log)}
         try:
-            return ("ok", t.render_unicode(**ctx), text)
+            out = "\n--\n".join(t.render_unicode(**ctx) for t in tmpls)
         finally:
             if log is not None:
                 _restore()
+        if dlist is not None and dlist != list(cfg["D"]):
+            return ("mutated", "default_filters is now %r" % (dlist,), text)
+        if dlist is None and any(t.default_filters != ["str"] for t in tmpls):
+            return ("mutated", "Template.default_filters is now %r" % ([t.default_filters for t in tmpls],), text)
+        if blist != list(cfg["BF"]):
+            return ("mutated", "buffer_filters is now %r" % (blist,), text)
+        return ("ok", out, text)
     except Exception as e:
         return ("exc", type(e).__name__, str(e)[:160], text)
 
@@ -202,8 +249,15 @@ def _restore():
 
 
 def expected_output(cfg, apps):
-    value = Val(RAW) if cfg["c"] == "expr" else BODY
-    return "[" + str(apply_reference(apps, value)) + "]"
+    """apps: one application sequence per construct (items of template 1, then of template 2)."""
+    n1 = len(cfg["items"])
+    res = []
+    for part, aa in ((cfg["items"], apps[:n1]), (cfg["items2"], apps[n1:])):
+        if not part:
+            continue
+        pieces = ["[" + str(apply_reference(a, Val(RAW) if it["c"] == "expr" else BODY)) + "]" for it, a in zip(part, aa)]
+        res.append(("" if len(part) == 1 and part is cfg["items"] else "\n").join(pieces))
+    return "\n--\n".join(res)
 
 
 def check_config(job):
@@ -216,19 +270,22 @@ def check_config(job):
 
 
 def pipeline_signature(cfg, apps, obs):
-    """construct : which filter sources are involved : failure mode"""
+    """construct(s) : which filter sources are involved : failure mode"""
+    items = cfg["items"] + cfg["items2"]
+    cs = [it["c"] for it in items]
     src = []
-    if cfg["c"] in ("expr", "bufdef", "cachedbufdef"):
+    if any(c in ("expr", "bufdef", "cachedbufdef") for c in cs):
         if cfg["D"] != ABSENT and cfg["D"]:
             src.append("D")
         if cfg["P"] != ABSENT:
             src.append("P+n" if "n" in cfg["P"] else "P")
-    if cfg["E"]:
-        src.append("E+n" if "n" in cfg["E"] else "E")
-    if cfg["BF"] and cfg["c"] in ("bufdef", "cachedbufdef"):
+    if any(it["E"] for it in items):
+        src.append("E+n" if any("n" in it["E"] for it in items) else "E")
+    if cfg["BF"] and any(c in ("bufdef", "cachedbufdef") for c in cs):
         src.append("BF")
-    mode = "output-differs" if obs[0] == "ok" else "raises-" + obs[1]
-    return "pipeline:%s:%s:%s" % (cfg["c"], "+".join(src) or "none", mode)
+    mode = {"ok": "output-differs", "mutated": "configuration-object-mutated"}.get(obs[0]) or "raises-" + obs[1]
+    what = cs[0] if len(cs) == 1 else ("sequence+second-template" if cfg["items2"] else "sequence")
+    return "pipeline:%s:%s:%s" % (what, "+".join(src) or "none", mode)
 
 
 def _pool_map(fn, jobs, procs):
@@ -301,7 +358,7 @@ def random_config(rng):
         P = [rng.choice(["p1", "p2", "n", "h", "x", "trim"]) for _ in range(rng.randint(1, 3))]
     E = [rng.choice(E_TOKENS) for _ in range(rng.randint(0, 4))]
     BF = [rng.choice(["b1", "trim", "n"]) for _ in range(rng.randint(0, 2))]
-    return {"c": c, "D": D, "P": P, "E": E, "BF": BF}
+    return session(c, D, P, E, BF)
 
 
 TRACE_CFG = "SPECIFICATION TSpec\nCHECK_DEADLOCK FALSE\n"
@@ -318,7 +375,7 @@ def validate_observed(run, n, workers):
         if obs[0] != "ok":
             failed.append((cfg, obs))
             continue
-        traces.append({"id": len(traces) + 1, "cfg": cfg, "apps": log, "template": obs[-1]})
+        traces.append({"id": len(traces) + 1, "cfg": cfg, "apps": log, "template": obs[-1], "c": cfg["items"][0]["c"]})
     for cfg, obs in failed[:5]:
         run.violation(pipeline_signature(cfg, [], obs), "random configuration %s: rendering raises %s" % (cfg, obs[:-1]),
                       {"cfg": cfg, "template": obs[-1], "observed": obs[:-1]})
@@ -347,7 +404,7 @@ def validate_observed(run, n, workers):
         v = verdicts[t["id"]]
         if not v["ok"]:
             bad += 1
-            run.violation("observed:%s:%s" % (t["cfg"]["c"], v["clause"]),
+            run.violation("observed:%s:%s" % (t["c"], v["clause"]),
                           "%s: observed applications %s rejected by Trace_Filters at application %s (%s)" % (t["template"], t["apps"], v["i"], v["clause"]),
                           {"trace": t, "verdict": v})
     return len(traces), bad
@@ -363,7 +420,7 @@ def check(run):
     stats = {}
 
     # (i) the pipeline: all configurations
-    cfg_text = "CONSTANT Deep = %s\nSPECIFICATION MCSpec\nINVARIANT PrintTerminal PipelineOrder NameTable\nPROPERTY Monotone\nCHECK_DEADLOCK FALSE\n" % ("TRUE" if thorough else "FALSE")
+    cfg_text = "CONSTANT Deep = %s\nSPECIFICATION MCSpec\nINVARIANT PrintTerminal PipelineOrder NameTable ConfigImmutable\nPROPERTY Monotone\nCHECK_DEADLOCK FALSE\n" % ("TRUE" if thorough else "FALSE")
     res = run.tlc("MC_Filters", cfg_text, name="mc-filters", coverage=True, workers=workers, timeout=1500)
     if res.violated:
         run.spec_violation(res)
@@ -377,10 +434,13 @@ def check(run):
         if isinstance(rec, dict) and "cfg" in rec:
             table[json.dumps(rec["cfg"], sort_keys=True)] = (rec["cfg"], rec["apps"])
     # witnesses (against vacuity of the n rules), read off TLC's table
-    if not any(c["c"] == "expr" and "n" in c["E"] and a for c, a in table.values()):
+    one = [(c, c["items"][0], a[0]) for c, a in table.values() if len(c["items"]) == 1 and not c["items2"]]
+    if not any(it["c"] == "expr" and "n" in it["E"] and a for c, it, a in one):
         raise MachineryError("vacuous: no configuration with a local n and remaining filters")
-    if not any(c["c"] == "expr" and c["P"] != ABSENT and "n" in c["P"] and "n" not in c["E"] and len(a) > 1 for c, a in table.values()):
+    if not any(it["c"] == "expr" and c["P"] != ABSENT and "n" in c["P"] and "n" not in it["E"] and len(a) > 1 for c, it, a in one):
         raise MachineryError("vacuous: no configuration with n in the page filter")
+    if not any(len(c["items"]) >= 3 and c["items2"] and c["P"] != ABSENT and "n" not in c["P"] for c, a in table.values()):
+        raise MachineryError("vacuous: no session with three constructs, a page filter and a second template")
     jobs = []
     for key in sorted(table):
         cfg, apps = table[key]
@@ -403,14 +463,16 @@ def check(run):
     for (cfg, apps, h), r0 in zip(jobs, results):
         if r0 is not None:
             continue                   # only a configuration on which code and model agree can serve as a control
-        if cfg["c"] == "expr" and len(apps) >= 2 and apps[0] != apps[1] and set(apps) & {"f1", "f2", "d1", "p1"}:
-            sw = [apps[1], apps[0]] + apps[2:]
-            if expected_output(cfg, sw) == expected_output(cfg, apps) or expected_output(cfg, apps[:-1]) == expected_output(cfg, apps):
+        a = apps[-1]                   # the LAST construct of the session (the k-th, or the second template's)
+        if (cfg["items"] + cfg["items2"])[-1]["c"] == "expr" and len(a) >= 2 and a[0] != a[1] and set(a) & {"f1", "f2", "d1", "p1"}:
+            sw = apps[:-1] + [[a[1], a[0]] + a[2:]]
+            dr = apps[:-1] + [a[:-1]]
+            if expected_output(cfg, sw) == expected_output(cfg, apps) or expected_output(cfg, dr) == expected_output(cfg, apps):
                 continue
             run.negative_control(check_config((cfg, sw, h)) is not None, "comparer accepted swapped applications for %s" % cfg)
-            run.negative_control(check_config((cfg, apps[:-1], h)) is not None, "comparer accepted a dropped application for %s" % cfg)
+            run.negative_control(check_config((cfg, dr, h)) is not None, "comparer accepted a dropped application for %s" % cfg)
             nc += 1
-            if nc >= 5:
+            if nc >= 8:
                 break
     if nc == 0 and bad == 0:
         raise MachineryError("no negative control could be built")
@@ -426,10 +488,10 @@ def check(run):
     ftab = {}
     for fl in ([], ["h"], ["trim", "h"], ["h", "trim"], ["g(..)"]):
         E = ["g(1)" if x == "g(..)" else x for x in fl]
-        key = json.dumps({"c": "expr", "D": ABSENT, "P": ABSENT, "E": E, "BF": []}, sort_keys=True)
+        key = json.dumps(session("expr", ABSENT, ABSENT, E, []), sort_keys=True)
         if key not in table:
             raise MachineryError("Filters table lacks configuration %s" % key)
-        ftab[" ".join(fl)] = ["g(..)" if x == "g(1)" else x for x in table[key][1]]
+        ftab[" ".join(fl)] = ["g(..)" if x == "g(1)" else x for x in table[key][1][0]]
     by = {}
     for rec in sres.json_lines():
         if isinstance(rec, dict) and "t" in rec:
